@@ -73,6 +73,7 @@ def draw_cfg(st):
         "w_ops": [5, 5, 0, 1, 1, 1, 4],
         "n_nodes": 2 + st.choose(2, "nodes"),
         "shuffle": st.choose(3, "shuffle"),          # 0: file order, 1: per-file reversed, 2: full shuffle
+        "wide": st.choose(4, "wide") == 3,
     }
     return cfg
 
